@@ -137,6 +137,11 @@ class LiaDomain:
             if k >= width:
                 return Poly.const(0)
             r = x * (1 << k)
+            xlo, xhi = self.interval(st, x)
+            if not signed and st.run is not None and "wrapshift" in st.run.c.opts and (xhi is None or (xhi << k) > hi):
+                # exact Go semantics: the bits shifted out are dropped:  (x mod 2^(width-k)) * 2^k
+                _, rr = self.divmod_pow2(st, x, width - k)
+                return rr * (1 << k)
             st.oblige("nowrap", site, mk_and(("<=", Poly.const(lo), r), ("<=", r, Poly.const(hi))),
                       "x << %d loses no bits" % k)
             return r
@@ -244,7 +249,19 @@ class LiaDomain:
         c = self.concrete(x)
         if c is not None and tlo <= c <= thi:
             return x
+        if c is not None:
+            # a constant outside the target range wraps (two's complement), exactly as in Go
+            m = c & ((1 << tw) - 1)
+            if ts and m >> (tw - 1):
+                m -= 1 << tw
+            return Poly.const(m)
         lo, hi = self.interval(st, x)
+        if lo is not None and tlo <= lo and hi <= thi:
+            return x
+        if st.run is not None and "wrapconv" in st.run.c.opts:
+            # exact narrowing conversion:  ((x - tlo) mod 2^tw) + tlo
+            _, rr = self.divmod_pow2(st, x - tlo, tw)
+            return rr + tlo
         st.oblige("conv", site, mk_and(("<=", Poly.const(tlo), x), ("<=", x, Poly.const(thi))),
                   "conversion keeps the value")
         return x
@@ -531,6 +548,8 @@ def _formula_atoms(f):
             return {f[1]}
         if f and f[0] == "uf":
             return formula_atoms(f[2])
+        if f and f[0] == "uf2":
+            return formula_atoms(f[2]) | formula_atoms(f[3])
         if f and f[0] in ("bvconst", "extract", "zext", "sext"):
             s = set()
             for g in f[1:]:
@@ -577,12 +596,67 @@ def bvc(n, w):
 
 
 class BvDomain:
-    """Exact fixed-width bit-vector semantics; spec integers are SPECW-bit vectors."""
+    """Exact fixed-width bit-vector semantics; spec integers are SPECW-bit two's complement vectors.
+    Soundness guard: an upper bound on the magnitude (bit length) of every specification term is tracked;
+    a sum/shift that could leave the SPECW range is refused, a product that could is replaced by an
+    uninterpreted function of its operands (it then only takes part in equality reasoning)."""
     mode = "bv"
 
     def __init__(self, specw=SPECW):
         self.counter = 0
         self.specw = specw
+        self._mag = {}
+
+    def mag(self, t):
+        """upper bound on the bit length of |value| of a spec term"""
+        k = id(t)
+        r = self._mag.get(k)
+        if r is not None and r[0] is t:
+            return r[1]
+        m = self._mag_of(t)
+        self._mag[k] = (t, m)
+        return m
+
+    def _mag_of(self, t):
+        if not isinstance(t, tuple):
+            return self.specw
+        op = t[0]
+        if op == "bvconst":
+            v = t[1]
+            if v >> (t[2] - 1):
+                v = (1 << t[2]) - v
+            return max(1, v.bit_length())
+        if op == "bvvar":
+            return t[2]
+        if op == "zext":
+            return min(self.width(t[2]), self.mag(t[2]))
+        if op == "sext":
+            return self.width(t[2])
+        if op in ("bvadd", "bvsub"):
+            return max(self.mag(t[1]), self.mag(t[2])) + 1
+        if op == "bvmul":
+            return self.mag(t[1]) + self.mag(t[2])
+        if op == "bvshl":
+            c = self.concrete(t[2])
+            return self.mag(t[1]) + (c if c is not None else self.specw)
+        if op in ("bvlshr", "bvand", "bvurem"):
+            return self.mag(t[1]) if op != "bvand" else min(self.mag(t[1]), self.mag(t[2]))
+        if op == "bvneg":
+            return self.mag(t[1])
+        if op == "ite":
+            return max(self.mag(t[2]), self.mag(t[3]))
+        if op == "extract":
+            return t[1] - t[2] + 1
+        if op == "concat":
+            return sum(self.width(x) for x in t[1:])
+        if op == "uf":
+            return self.specw - 2
+        return self.specw
+
+    def guard(self, t, what):
+        if self.width(t) == self.specw and self.mag(t) > self.specw - 2:
+            raise Unsupported("bv: specification integer may leave the %d-bit range (%s)" % (self.specw, what))
+        return t
 
     def new_name(self, base):
         self.counter += 1
@@ -625,7 +699,7 @@ class BvDomain:
             return sum(self.width(x) for x in t[1:])
         if k == "ite":
             return self.width(t[2])
-        if k == "uf":
+        if k in ("uf", "uf2"):
             return self.specw
         raise Unsupported("width of %r" % (k,))
 
@@ -814,17 +888,21 @@ class BvDomain:
                 raise Unsupported("bv spec: symbolic power")
             return bvc(ca ** cb, W)
         if op == "+":
-            return self.mk("bvadd", a, b)
+            return self.guard(self.mk("bvadd", a, b), "sum")
         if op == "-":
-            return self.mk("bvsub", a, b)
+            return self.guard(self.mk("bvsub", a, b), "difference")
         if op == "*":
             if ca is not None and ca & (ca - 1) == 0 and ca > 0:
-                return self.mk("bvshl", b, bvc(ca.bit_length() - 1, W))
+                return self.guard(self.mk("bvshl", b, bvc(ca.bit_length() - 1, W)), "product")
             if cb is not None and cb & (cb - 1) == 0 and cb > 0:
-                return self.mk("bvshl", a, bvc(cb.bit_length() - 1, W))
-            return self.mk("bvmul", a, b)
+                return self.guard(self.mk("bvshl", a, bvc(cb.bit_length() - 1, W)), "product")
+            r = self.mk("bvmul", a, b)
+            if self.mag(r) > self.specw - 2:
+                # too large for this width: an opaque function of the operands
+                return ("uf2", "mul", a, b)
+            return r
         if op == "<<":
-            return self.mk("bvshl", a, b)
+            return self.guard(self.mk("bvshl", a, b), "shift")
         if op == ">>":
             return self.mk("bvlshr", a, b)
         if op == "&":
@@ -898,6 +976,9 @@ class BvDomain:
             elif k == "uf":
                 ufs.add(x[1])
                 r = "(|%s| %s)" % (x[1], t(x[2]))
+            elif k == "uf2":
+                ufs2.add(x[1])
+                r = "(|%s2| %s %s)" % (x[1], t(x[2]), t(x[3]))
             elif k in ("and", "or") and len(x) == 2:
                 r = t(x[1])
             else:
@@ -918,17 +999,20 @@ class BvDomain:
         keep = []
         body = []
         ufs = set()
+        ufs2 = set()
         for h in hyps:
             body.append("(assert %s)" % t(h))
         body.append("(assert (not %s))" % t(goal))
         used = set()
         for h in hyps + [goal]:
             used |= formula_atoms(h)
-        lines = ["(set-logic QF_UFBV)" if ufs else "(set-logic QF_BV)"]
+        lines = ["(set-logic QF_UFBV)" if (ufs or ufs2) else "(set-logic QF_BV)"]
         for a in sorted(used):
             lines.append("(declare-const |%s| %s)" % (a, decl.get(a, "Bool")))
         for u in sorted(ufs):
             lines.append("(declare-fun |%s| ((_ BitVec %d)) (_ BitVec %d))" % (u, self.specw, self.specw))
+        for u in sorted(ufs2):
+            lines.append("(declare-fun |%s2| ((_ BitVec %d) (_ BitVec %d)) (_ BitVec %d))" % (u, self.specw, self.specw, self.specw))
         for nm, srt, r in order:
             lines.append("(define-fun %s () %s %s)" % (nm, srt, r))
         lines.extend(body)
